@@ -140,9 +140,61 @@ struct GeneralizedCond { Linear_Expression le; mpq_class den; PPL::Relation_Symb
   std::vector<mpq_class> candidates(const QPoint& p) const { mpq_class E = eval_le(le, p) / den; return cand_values(E, E, p[var]); }
   bool ok(const QPoint& p, const mpq_class& v) const { return rel_holds(rs, v, eval_le(le, p) / den); } };
 
+// Call-site discriminator of known finding F40: Octagonal_Shape::refine(var, >=, expr, d) (reached from
+// generalized_affine_preimage(var, >=, expr, d) and bounded_affine_preimage when var does not occur in the lower bound)
+// records v + u <= c instead of u - v <= c exactly when expr is not a single +/-1 term, exactly one term u is unbounded
+// in the direction needed to bound expr from below, u has coefficient d and a larger index than var.
+template <class D> inline bool oct_refine_ge_callsite(const D& pre, dimension_type var, const Linear_Expression& expr, const Coefficient& den) {
+  if constexpr (!Dom<D>::oct) return false;
+  else {
+    if (den == 0 || expr.space_dimension() > pre.space_dimension()) return false;
+    if (var < expr.space_dimension() && expr.coefficient(Variable(var)) != 0) return false;
+    D a(pre); if (a.is_empty()) return false;
+    dimension_type terms = 0, unbounded = 0, which = 0; bool unit = true;
+    for (dimension_type i = 0; i < expr.space_dimension(); ++i) { Coefficient ci = expr.coefficient(Variable(i)); if (ci == 0) continue;
+      ++terms; if (ci != den && ci != -den) unit = false;
+      bool positive = (sgn(ci) * sgn(den)) > 0;     // a lower bound of expr/den needs a lower bound of u (positive) or an upper bound (negative)
+      bool bounded = positive ? a.bounds_from_below(Linear_Expression(Variable(i))) : a.bounds_from_above(Linear_Expression(Variable(i)));
+      if (!bounded) { ++unbounded; which = i; } }
+    if (terms == 0 || (terms == 1 && unit)) return false;
+    return unbounded == 1 && which > var && expr.coefficient(Variable(which)) == den;
+  }
+}
+struct DefSuffix { DefSuffix(bool on, const char* s) { if (on) g_def.suffix = s; } ~DefSuffix() { g_def.suffix.clear(); } };
+inline PPL::Relation_Symbol flip_rel(PPL::Relation_Symbol rs) {
+  switch (rs) { case PPL::LESS_THAN: return PPL::GREATER_THAN; case PPL::LESS_OR_EQUAL: return PPL::GREATER_OR_EQUAL; case PPL::GREATER_OR_EQUAL: return PPL::LESS_OR_EQUAL; case PPL::GREATER_THAN: return PPL::LESS_THAN; default: return rs; }
+}
+// lhs == a*v + b with a != 0 and no other variable: the relation lhs' rs rhs is v' rs' (rhs - b)/a
+inline bool single_variable_lhs(const Linear_Expression& lhs, dimension_type& var, Coefficient& a) {
+  dimension_type cnt = 0; for (dimension_type i = 0; i < lhs.space_dimension(); ++i) if (lhs.coefficient(Variable(i)) != 0) { ++cnt; var = i; a = lhs.coefficient(Variable(i)); }
+  return cnt == 1;
+}
+
+// Relations with a left hand side of two or more variables: lhs(x') rs rhs(x), x' = x outside the variables of lhs.
+// Witnesses: one variable of lhs is shifted, another one is solved so that lhs(x') hits a target value related to rhs(x).
+inline std::vector<dimension_type> vars_of(const Linear_Expression& e) { std::vector<dimension_type> v; for (dimension_type i = 0; i < e.space_dimension(); ++i) if (e.coefficient(Variable(i)) != 0) v.push_back(i); return v; }
+inline mpq_class lr_target(PPL::Relation_Symbol rs, const mpq_class& r) { return rs == PPL::LESS_THAN ? mpq_class(r - 1) : rs == PPL::GREATER_THAN ? mpq_class(r + 1) : r; }
+inline bool lr_witness(const Linear_Expression& lhs, const QPoint& base, dimension_type i, dimension_type j, long delta, const mpq_class& target, QPoint& out) {
+  out = base; out[i] += delta; mpq_class rest = eval_le(lhs, out) - mpq_class(lhs.coefficient(Variable(j))) * out[j];
+  mpq_class v = (target - rest) / mpq_class(lhs.coefficient(Variable(j))); v.canonicalize(); out[j] = v; return true;
+}
+template <class D> inline void lr_image_check(const char* what, const D& pre, const D& post, const Linear_Expression& lhs, PPL::Relation_Symbol rs, const Linear_Expression& rhs) {
+  std::vector<dimension_type> V = vars_of(lhs); if (V.size() < 2) return;
+  dimension_type n = post.space_dimension(); auto& pv = g_def.probes->of(n); D a(pre), b(post); static const long deltas[] = { 0, -3, 2 };
+  for (size_t k = 0; k < pv.size(); ++k) { if (!member_of(a, pv[k])) continue; mpq_class t = lr_target(rs, eval_le(rhs, pv[k]));
+    for (dimension_type i : V) for (dimension_type j : V) { if (i == j) continue; for (long d : deltas) { QPoint q; lr_witness(lhs, pv[k], i, j, d, t, q);
+      if (!member_of(b, q)) { def_violation(what, "point " + oracle::show(q) + " is an image of member " + oracle::show(pv[k]) + " but is not in the result"); return; } } } }
+}
+template <class D> inline void lr_preimage_check(const char* what, const D& pre, const D& post, const Linear_Expression& lhs, PPL::Relation_Symbol rs, const Linear_Expression& rhs) {
+  std::vector<dimension_type> V = vars_of(lhs); if (V.size() < 2) return;
+  dimension_type n = post.space_dimension(); auto& pv = g_def.probes->of(n); D a(pre), b(post); static const long deltas[] = { 0, -3, 2 };
+  for (size_t k = 0; k < pv.size(); ++k) { mpq_class t = lr_target(rs, eval_le(rhs, pv[k])); bool in_post = member_of(b, pv[k]); if (in_post) continue;
+    for (dimension_type i : V) for (dimension_type j : V) { if (i == j) continue; for (long d : deltas) { QPoint q; lr_witness(lhs, pv[k], i, j, d, t, q);
+      if (member_of(a, q)) { def_violation(what, "point " + oracle::show(pv[k]) + " is related to member " + oracle::show(q) + " but is not in the result"); return; } } } }
+}
+
 // domains over floating point numbers round differently along different code paths: agreement between overloads is
 // not required of them (specialised to true in obj_float.cc)
-template <class D> struct Inexact { static constexpr bool value = false; };
 template <class D, bool IS_MAX> inline std::function<std::string()> with_point_call(Env<D>& e, Cur& c) {
   D* x = e.o[0]; Linear_Expression le = c.expr(x->space_dimension());
   return [x, le]() { Coefficient n1, d1, n2, d2; bool m1 = false, m2 = false; Generator g = Generator::point();
@@ -407,18 +459,34 @@ template <class D> void add_common_ops(ObjHarness<D>& H) {
               Variable v((dimension_type) c.mod((long) n)); PPL::Relation_Symbol rs = relsym(c.next()); Linear_Expression le = c.expr(n); Coefficient den = coef(c.next());
               return [x, v, rs, le, den]() { std::shared_ptr<D> pre; if (g_def.active && den != 0) { FaultPause fp; pre.reset(new D(*x)); }
                 x->generalized_affine_preimage(v, rs, le, den);
-                if (pre) { FaultPause fp; GeneralizedCond gc{ le, mpq_class(den), rs, v.id() }; must_contain_preimage("def-generalized_affine_preimage", *pre, *x, v.id(), gc); }
+                if (pre) { FaultPause fp; GeneralizedCond gc{ le, mpq_class(den), rs, v.id() };
+                  DefSuffix sfx(rs == PPL::GREATER_OR_EQUAL && oct_refine_ge_callsite(*pre, v.id(), le, den), "oct-refine-ge-callsite");
+                  must_contain_preimage("def-generalized_affine_preimage", *pre, *x, v.id(), gc); }
                 return std::string(); }; } });
     H.add({ "generalized_affine_image_lr", 1, F_VAL | F_FAULT, 3,
       GENF { op.a.push_back(r.range(0, 4)); gen_expr(r, op, W, false); gen_expr(r, op, W, false); },
       PREPF { D* x = e.o[0]; dimension_type n = x->space_dimension(); PPL::Relation_Symbol rs = relsym(c.next());
               Linear_Expression l = c.expr(n), rr = c.expr(n);
-              return [x, l, rs, rr]() { x->generalized_affine_image(l, rs, rr); return std::string(); }; } });
+              return [x, l, rs, rr]() { std::shared_ptr<D> pre; dimension_type lv = 0; Coefficient la;
+                bool single = single_variable_lhs(l, lv, la);
+                if (g_def.active && rs != PPL::NOT_EQUAL && !vars_of(l).empty()) { FaultPause fp; pre.reset(new D(*x)); }
+                x->generalized_affine_image(l, rs, rr);
+                if (pre && !single) { FaultPause fp; lr_image_check("def-generalized_affine_image_lr", *pre, *x, l, rs, rr); }
+                else if (pre) { FaultPause fp; GeneralizedCond gc{ rr - l.inhomogeneous_term(), mpq_class(la), la < 0 ? flip_rel(rs) : rs, lv }; must_contain_image("def-generalized_affine_image_lr", *pre, *x, lv, gc); }
+                return std::string(); }; } });
     H.add({ "generalized_affine_preimage_lr", 1, F_VAL | F_FAULT, 3,
       GENF { op.a.push_back(r.range(0, 4)); gen_expr(r, op, W, false); gen_expr(r, op, W, false); },
       PREPF { D* x = e.o[0]; dimension_type n = x->space_dimension(); PPL::Relation_Symbol rs = relsym(c.next());
               Linear_Expression l = c.expr(n), rr = c.expr(n);
-              return [x, l, rs, rr]() { x->generalized_affine_preimage(l, rs, rr); return std::string(); }; } });
+              return [x, l, rs, rr]() { std::shared_ptr<D> pre; dimension_type lv = 0; Coefficient la;
+                bool single = single_variable_lhs(l, lv, la);
+                if (g_def.active && rs != PPL::NOT_EQUAL && !vars_of(l).empty()) { FaultPause fp; pre.reset(new D(*x)); }
+                x->generalized_affine_preimage(l, rs, rr);
+                if (pre && !single) { FaultPause fp; lr_preimage_check("def-generalized_affine_preimage_lr", *pre, *x, l, rs, rr); }
+                else if (pre) { FaultPause fp; Linear_Expression le = rr - l.inhomogeneous_term(); PPL::Relation_Symbol r2 = la < 0 ? flip_rel(rs) : rs; GeneralizedCond gc{ le, mpq_class(la), r2, lv };
+                  DefSuffix sfx(r2 == PPL::GREATER_OR_EQUAL && oct_refine_ge_callsite(*pre, lv, le, la), "oct-refine-ge-callsite");
+                  must_contain_preimage("def-generalized_affine_preimage_lr", *pre, *x, lv, gc); }
+                return std::string(); }; } });
   }
   else {
     H.add({ "generalized_affine_image", 1, F_VAL | F_FAULT, 5,
@@ -456,7 +524,9 @@ template <class D> void add_common_ops(ObjHarness<D>& H) {
             Variable v((dimension_type) c.mod((long) n)); Linear_Expression lb = c.expr(n), ub = c.expr(n); Coefficient den = coef(c.next());
             return [x, v, lb, ub, den]() { std::shared_ptr<D> pre; if (g_def.active && den != 0) { FaultPause fp; pre.reset(new D(*x)); }
               x->bounded_affine_preimage(v, lb, ub, den);
-              if (pre) { FaultPause fp; BoundedCond bc{ lb, ub, mpq_class(den), v.id() }; must_contain_preimage("def-bounded_affine_preimage", *pre, *x, v.id(), bc); }
+              if (pre) { FaultPause fp; BoundedCond bc{ lb, ub, mpq_class(den), v.id() };
+                DefSuffix sfx(oct_refine_ge_callsite(*pre, v.id(), lb, den), "oct-refine-ge-callsite");
+                must_contain_preimage("def-bounded_affine_preimage", *pre, *x, v.id(), bc); }
               return std::string(); }; } });
   H.add({ "unconstrain", 1, F_VAL | F_FAULT, 3,
     GENF { op.a.push_back(r.range(0, 5)); },
